@@ -1,6 +1,7 @@
 from itertools import count
 import networkx as nx
 import math
+import numbers
 import flowpaths.utils as utils
 # NOTE: Do NOT import flowpaths.stdigraph at module import time to avoid a circular
 # import chain: stdag -> graphutils -> stdigraph -> stdag. We instead lazily import
@@ -331,13 +332,14 @@ def check_flow_conservation(G: nx.DiGraph, flow_attr) -> bool:
         for x, y, data in G.out_edges(v, data=True):
             if data.get(flow_attr) is None:
                 return False
-            out_flow += data[flow_attr]
+            # (integers are summed as Python ints: fixed-width numpy integers wrap around, np.uint8 200 + 100 = 44)
+            out_flow += int(data[flow_attr]) if isinstance(data[flow_attr], numbers.Integral) else data[flow_attr]
 
         in_flow = 0
         for x, y, data in G.in_edges(v, data=True):
             if data.get(flow_attr) is None:
                 return False
-            in_flow += data[flow_attr]
+            in_flow += int(data[flow_attr]) if isinstance(data[flow_attr], numbers.Integral) else data[flow_attr]
 
         # Float values that conserve flow as decimal numbers (0.3 = 0.1 + 0.2) differ in the last binary digits: they are
         # compared with a tolerance. Integral sums are compared exactly (a relative tolerance would accept 2000000001 = 2000000000)
